@@ -71,6 +71,11 @@ def call(x, **over):
         volume_fraction=float(x["phi"]),
     )
     a.update(over)
+    f_in = a["fractions"]
+    if f_in.dtype.kind == "f" and np.all(f_in == np.round(f_in)):
+        # a vertex of the simplex ([0, ..., 1, ..., 0], or a lone grain [1]) is handed over as
+        # the integer array such a literal is
+        a["fractions"] = f_in.astype(np.int64)
     keep = {k: a[k].copy() for k in ("orientations", "fractions", "strain_rate", "velocity_gradient")}
     Adot, fdot = sut(core.derivatives, **a)
     for k, v in keep.items():
